@@ -4,6 +4,7 @@ R6.1 tracking tables are total; CPU tracking is TRACK_TH_RUN everywhere
 R6.2 tracking mode -> selector -> state set
 R6.3 CPU mux wiring (select = running-thread channel, input gindex = that thread's channel i)
 R6.4 mux protocol (cb_select / cb_input) and bay_propagate phase order
+R6.5 the CPU muxes' select (running-thread channel) is the unique running thread or null
 """
 import json
 import os
@@ -40,7 +41,23 @@ def run(ctx):
              "the new input's value, or the mux default when none, to the output; cb_input forwards to the same "
              "output; bay_propagate runs dirty callbacks, then emit callbacks, then flushes, then clears the "
              "dirty list")
+    ctx.rule("R6.5", "the select of every CPU multiplexer, the CPU's running-thread channel, is set by cpu_update to "
+             "the gindex of the running thread when exactly one thread of the CPU is running and to null when none "
+             "or several are (evaluated on every list of 0..2 threads in every state, physical and virtual CPUs), so "
+             "a CPU row shows the unique running thread's value and nothing / the default otherwise")
     RUN, ACT, ANY = E("TRACK_TH_RUN"), E("TRACK_TH_ACT"), E("TRACK_TH_ANY")
+
+    # ---- R6.5 ----------------------------------------------------------------
+    from rules.C05 import cpu_update_cases
+    thrun = E("CPU_CHAN_THRUN")
+    cuf = prog.fn("cpu_update", "src/emu/cpu.c")
+    for (tag, virt, states, acc, sets, run_idx, act_idx) in cpu_update_cases(ctx, prog, eff, sp, maxn=2):
+        if not acc:
+            continue        # rejected configuration (oversubscribed physical CPU): C05 R5.2
+        want = ("val", "i64", INT(10 + run_idx[0])) if len(run_idx) == 1 else ("val", "null")
+        ctx.check(sets.get(thrun) == want, "R6.5", "cpu_update:" + tag + ":select", cuf.loc(),
+                  "with %d running thread(s) the CPU's running-thread channel (select of the CPU muxes) receives %s, "
+                  "expected %s" % (len(run_idx), sets.get(thrun), "that thread's gindex" if len(run_idx) == 1 else "null"))
 
     # ---- R6.1 ----------------------------------------------------------------
     ms = models.discover(prog)
@@ -99,7 +116,8 @@ def run(ctx):
 
         def s_get(ex, st, args, f, e):
             return [(PTR("MUXIN", (args[1][1] if args[1][0] == "int" else -1,)), {})]
-        ex = absint.Explorer(prog, effects=eff, summaries={"mux_get_input": s_get})
+        ex = absint.Explorer(prog, effects=eff, summaries={"mux_get_input": s_get},
+                             inline=lambda n, d: d.file == "src/emu/thread.c", max_depth=4)
         for stname in names + ["null"]:
             if stname == "null":
                 val = {F("value", "type"): INT(VT["VALUE_NULL"])}
